@@ -59,6 +59,8 @@ impl Drop for AssignedCredits {
         {
             let mut port = port.lock().unwrap();
             port.credits += self.port;
+            #[cfg(remoc_verif)]
+            crate::verif::emit("credit_drop", &[("key", self.port_inner.as_ptr() as u64), ("returned", self.port as u64), ("pool", port.credits as u64)]);
         }
     }
 }
@@ -86,6 +88,8 @@ impl CreditProvider {
                 Some(new_credits) => inner.credits = new_credits,
                 None => return Err(ChMuxError::Protocol("credits overflow".to_string())),
             };
+            #[cfg(remoc_verif)]
+            crate::verif::emit("credit_provide", &[("key", std::sync::Arc::as_ptr(&self.0) as u64), ("credits", credits as u64), ("pool", inner.credits as u64)]);
 
             mem::take(&mut inner.notify)
         };
@@ -103,6 +107,8 @@ impl CreditProvider {
             let mut inner = self.0.lock().unwrap();
 
             inner.closed = Some(gracefully);
+            #[cfg(remoc_verif)]
+            crate::verif::emit("credit_close", &[("key", std::sync::Arc::as_ptr(&self.0) as u64), ("graceful", gracefully as u64)]);
 
             mem::take(&mut inner.notify)
         };
@@ -143,6 +149,8 @@ impl CreditUser {
                     let channel_taken = channel.credits.min(req);
                     channel.credits -= channel_taken;
 
+                    #[cfg(remoc_verif)]
+                    crate::verif::emit("credit_grant", &[("key", self.channel.as_ptr() as u64), ("taken", channel_taken as u64), ("pool", channel.credits as u64)]);
                     tracing::trace!("obtained {channel_taken} of {req} requested credits");
                     return Ok(AssignedCredits::new(channel_taken, self.channel.clone()));
                 } else {
@@ -175,6 +183,8 @@ impl CreditUser {
 
         if channel.credits >= req {
             channel.credits -= req;
+            #[cfg(remoc_verif)]
+            crate::verif::emit("credit_grant", &[("key", self.channel.as_ptr() as u64), ("taken", req as u64), ("pool", channel.credits as u64)]);
             Ok(Some(AssignedCredits::new(req, self.channel.clone())))
         } else {
             Ok(None)
@@ -219,6 +229,8 @@ impl ChannelCreditMonitor {
         match inner.used.checked_add(credits) {
             Some(new_used) if new_used <= inner.limit => {
                 inner.used = new_used;
+                #[cfg(remoc_verif)]
+                crate::verif::emit("credit_use", &[("key", std::sync::Arc::as_ptr(&self.0) as u64), ("credits", credits as u64), ("used", new_used as u64)]);
                 Ok(UsedCredit(credits))
             }
             _ => Err(ChMuxError::Protocol("remote endpoint used too many channel flow credits".to_string())),
@@ -250,6 +262,8 @@ impl ChannelCreditReturner {
             // to be able to send a port data message with one port chunk.
             let threshold = if monitor.limit >= 8 { monitor.limit / 2 } else { 1 };
 
+            #[cfg(remoc_verif)]
+            crate::verif::emit("credit_consume", &[("key", self.monitor.as_ptr() as u64), ("credits", credit.0 as u64), ("used", monitor.used as u64), ("to_return", self.to_return as u64), ("ret", if self.to_return >= threshold { self.to_return as u64 } else { 0 })]);
             if self.to_return >= threshold {
                 let msg = PortEvt::ReturnCredits { remote_port, credits: self.to_return };
                 self.to_return = 0;
@@ -281,4 +295,18 @@ pub(crate) fn credit_monitor_pair(limit: u32) -> (ChannelCreditMonitor, ChannelC
     let monitor = ChannelCreditMonitor(Arc::new(Mutex::new(ChannelCreditMonitorInner { used: 0, limit })));
     let returner = ChannelCreditReturner { monitor: Arc::downgrade(&monitor.0), to_return: 0, return_fut: None };
     (monitor, returner)
+}
+
+#[cfg(remoc_verif)]
+impl CreditProvider {
+    pub(crate) fn verif_key(&self) -> u64 {
+        Arc::as_ptr(&self.0) as u64
+    }
+}
+
+#[cfg(remoc_verif)]
+impl ChannelCreditMonitor {
+    pub(crate) fn verif_key(&self) -> u64 {
+        Arc::as_ptr(&self.0) as u64
+    }
 }
